@@ -102,9 +102,17 @@ func getAliasMeta(
 		alias.Name = underlyingEnum.Name
 		alias.AliasType = string(underlyingEnum.ValueKind)
 
+		// Several constants may share one value (a 'default' member mirroring another one) - each value is listed once,
+		// in declaration order: the routers print this list as the labels of one 'case'
 		values := []string{}
+		seenValues := map[string]struct{}{}
 		for _, v := range underlyingEnum.Values {
-			values = append(values, fmt.Sprintf("%v", v.Value))
+			value := fmt.Sprintf("%v", v.Value)
+			if _, isDuplicate := seenValues[value]; isDuplicate {
+				continue
+			}
+			seenValues[value] = struct{}{}
+			values = append(values, value)
 		}
 		alias.Values = values
 	} else {
